@@ -330,9 +330,14 @@ func registerChecks() {
 				}, 1, fcfg, 1)
 				cs = append(cs, dropSaneCanonical(c))
 			}
+			for i := 0; i < cx.N(300, 8000); i++ {
+				cs = append(cs, genFileLevelHistory(cx, i))
+			}
 			return cs
 		},
-		Oracle: oracleC15,
+		Oracle: func(cx *CheckCtx, runs []*CaseRun) []Finding {
+			return append(oracleC15(cx, runs), erasureOracle(cx, runs, "C15", cx.N(100, 2000))...)
+		},
 	}
 	checks["C16"] = &PropCheck{
 		Gen: func(cx *CheckCtx) []*Case {
